@@ -99,6 +99,48 @@ def _check_accuracy(rng, n, parts, after_reset):
   return fails
 
 
+def _check_value_shapes(rng):
+  """the same 24 values handed over as python scalars, 0-d arrays, 1-d batches and (batch, time) / 3-d arrays: the
+  statistic is that of all values"""
+  from flax import nnx
+  import jax.numpy as jnp
+  x = (rng.randn(24) * 2.0 + 1.0).astype(np.float32)
+  plans = {
+    'flat-1d': [x[:10], x[10:]],
+    '2d-(4,6)': [x.reshape(4, 6)],
+    '2d-ragged': [x[:12].reshape(2, 6), x[12:].reshape(6, 2)],
+    '3d-(2,3,4)': [x.reshape(2, 3, 4)],
+    'mixed': [float(x[0]), np.asarray(x[1]), x[2:8], x[8:].reshape(4, 4)],
+  }
+  ref_mean, ref_std = float(np.mean(x.astype(np.float64))), float(np.std(x.astype(np.float64)))
+  fails = []
+  for pname, parts in plans.items():
+    for kind in ('Average', 'Welford', 'MultiMetric'):
+      m = {'Average': lambda: nnx.metrics.Average(), 'Welford': lambda: nnx.metrics.Welford(),
+           'MultiMetric': lambda: nnx.MultiMetric(avg=nnx.metrics.Average(), wf=nnx.metrics.Welford())}[kind]()
+      if kind != 'Average' and pname == 'mixed':
+        continue     # python scalars are an Average feature
+      for p in parts:
+        m.update(values=p if isinstance(p, float) else jnp.asarray(p))
+      out = m.compute()
+      got = float(out) if kind == 'Average' else (float(out.mean) if kind == 'Welford' else float(out['avg']))
+      if not np.isfinite(got) or abs(got - ref_mean) > 2e-3 * max(1.0, abs(ref_mean)):
+        fails.append(dict(inputs=dict(metric=kind, value_shapes=pname), observed=f'{kind} mean = {got!r}; the mean of the 24 values is {ref_mean!r}', violated='batching-independence'))
+      if kind == 'Welford' and abs(float(out.standard_deviation) - ref_std) > 2e-3 * max(1.0, ref_std):
+        fails.append(dict(inputs=dict(metric=kind, value_shapes=pname), observed=f'Welford std = {float(out.standard_deviation)!r}; reference {ref_std!r}', violated='batching-independence'))
+  # Accuracy with (batch, time) labels
+  logits = rng.randn(4, 5, 3).astype(np.float32)
+  labels = rng.randint(0, 3, size=(4, 5)).astype(np.int32)
+  want = float(np.mean(logits.argmax(-1) == labels))
+  for pname, sls in (('one-(4,5)-batch', [slice(0, 4)]), ('(1,5)+(3,5)', [slice(0, 1), slice(1, 4)])):
+    acc = nnx.metrics.Accuracy()
+    for sl in sls:
+      acc.update(logits=jnp.asarray(logits[sl]), labels=jnp.asarray(labels[sl]))
+    if abs(float(acc.compute()) - want) > 1e-5:
+      fails.append(dict(inputs=dict(metric='Accuracy', value_shapes=pname), observed=f'accuracy {float(acc.compute())!r}; fraction of correct tokens {want!r}', violated='batching-independence'))
+  return fails
+
+
 def _stream(rng, n, drift):
   # with drift the batch means differ from the running mean (the between-batch term matters)
   x = rng.randn(n) * 1.8 + 0.7
@@ -130,6 +172,9 @@ def run(tier, seed):
     if fails:
       break
   if not fails:
+    cases += 14
+    fails += _check_value_shapes(np.random.RandomState(5 + seed))
+  if not fails:
     for n in (12, 64):
       for parts in _partitions(n, seed) + [[5, 5, 2][:3] if n == 12 else [30, 30, 4]]:
         for after_reset in (False, True):
@@ -141,11 +186,13 @@ def run(tier, seed):
           break
       if fails:
         break
-  return dict(name=NAME, cases=cases, distinct=len(distinct), bound='streams of 7..140000 float32 values x 5-8 partitions x fresh/after-reset; Accuracy (multi-class, thresholded, inside MultiMetric) on streams of 12 / 64 examples x 9 partitions (ragged) x fresh/after-reset',
+  return dict(name=NAME, cases=cases, distinct=len(distinct), bound='streams of 7..140000 float32 values x 5-8 partitions x fresh/after-reset; Accuracy (multi-class, thresholded, inside MultiMetric) on streams of 12 / 64 examples x 9 partitions (ragged) x fresh/after-reset; 24 values as python scalars / 0-d / 1-d / 2-d / 3-d update arrays',
               failures=fails[:3], error=None)
 
 
 def replay(inputs):
+  if 'value_shapes' in inputs:
+    return not _check_value_shapes(np.random.RandomState(5))
   if str(inputs.get('metric', '')).startswith(('Accuracy', 'MultiMetric.loss')):
     return not _check_accuracy(np.random.RandomState(77), inputs['stream_len'], inputs['partition'], inputs['after_reset'])
   rng = np.random.RandomState(1234)
